@@ -10,7 +10,7 @@ import re
 from .. import model, runner
 from ..core import JobResult, job_seed
 
-TEXTS = ["hello", "Hello World", "MiXeD cAsE", "abc", "a", "UPPER", "lower", "x y  z", "  padded  ", "\tTab", "trail \t",
+TEXTS = ["", "hello", "Hello World", "MiXeD cAsE", "abc", "a", "UPPER", "lower", "x y  z", "  padded  ", "\tTab", "trail \t",
          "été", "日本語", "éa", "ß", "a-b_c", "aaa", "aaaa", "abcabc", "12", "007", "-5", "3.5", "1e3", "q.tar.gz",
          "co,mma", "semi;colon", "ÀÉÎ", "Ωmega", "naïve café", "one two three", "x"]
 NUMS = ["0", "1", "2", "5", "7", "10", "16", "255", "1000", "65536", "123456789", "9223372036854775807", "2.5", "0.5",
@@ -159,7 +159,7 @@ def gen_cases(rng, n):
             # `ext` of the probe file (no extension) is the empty value
             k = rng.randint(0, 2)
             args = ["ext"] * k + [q(t), q("later")]
-            add("coalesce(%s)" % ", ".join(args), ("text", t), f)
+            add("coalesce(%s)" % ", ".join(args), ("text", t if t != "" else "later"), f)
         elif f == "to_base64":
             add("%s(%s)" % (rng.choice(["to_base64", "base64"]), q(t)), ("text", base64.b64encode(t.encode()).decode()), f)
         elif f == "from_base64":
@@ -380,7 +380,7 @@ def run_job(job):
         base = 1_577_836_800
         for i, t in enumerate(rng.sample(TEXTS, 10)):
             nm = t.replace("\t", " ")
-            if nm in names or "/" in nm:
+            if nm in names or "/" in nm or not nm:
                 continue
             p = os.path.join(nd, nm)
             with open(p, "w") as f:
@@ -426,7 +426,7 @@ def run_job(job):
         MEMBER_OK = {"lower(name)", "length(name)", "upper(name)", "substr(name, 2, 2)", "replace(name, 'a', 'A')", "to_base64(name)",
                      "from_base64(to_base64(name))", "length(trim(name))"}
         with zipfile.ZipFile(os.path.join(nd, "pack.zip"), "w") as z:
-            for t in rng.sample([x for x in TEXTS if "\t" not in x], 3):
+            for t in rng.sample([x for x in TEXTS if "\t" not in x and x], 3):
                 z.writestr(t, b"m")
         names.append("pack.zip")
         for expr, ref in rng.sample(colcases, job["colcases"]):
